@@ -9,6 +9,10 @@
 // itself is decided in ticks by the white-box part
 // (whitebox/core/collection/zz_verif_c16_test.go).
 //
+// Third round: the Cache families store values of every kind (values_test.go) and compare results by
+// identity / kind-aware deep comparison; alias_test.go scribbles on and retains every slice returned
+// by Ring.Take and Set.Keys*.
+//
 // Nothing here depends on wall-clock time; all histories are sequential (the
 // statement is about sequences).
 package c16
@@ -86,6 +90,7 @@ func TestVerifC16(t *testing.T) {
 	ringFamilies(t)
 	setFamilies(t)
 	extFamilies(t)
+	aliasFamilies(t)
 
 	kit.End()
 }
